@@ -63,6 +63,15 @@ def _during(op, out, dump_before):
 
 def c01_ledger(stream, res, impl):
     """zero-sum: between two dumps the total credit changes only by what a successful withdrawal settled"""
+    if stream["component"] == "conc":
+        for op, out in zip(res, impl):
+            t = op.split()
+            if len(t) > 1 and t[1] == "billrace":
+                kv = _kv(out)
+                if kv.get("rounds-nonzero-sum", "0") != "0" or kv.get("rounds-wrong-charge", "0") != "0":
+                    return ("clients billed at the same moment: in %s round(s) the ledger did not sum to zero, in %s a client was charged for another client's elapsed time (%s)"
+                            % (kv.get("rounds-nonzero-sum"), kv.get("rounds-wrong-charge"), kv.get("first", "")))
+        return None
     if stream["component"] != "pool":
         return None
     prev, between = None, []
@@ -307,14 +316,28 @@ def c17_codec(stream, res, impl):
 def c18_ethrpc(stream, res, impl):
     if stream["component"] != "ethrpc":
         return None
-    meth = {"connect": "admin_addPeer", "disconnect": "admin_removePeer", "trust": "admin_addTrustedPeer", "untrust": "admin_removeTrustedPeer"}
+    kind = "geth"
     for op, out in zip(res, impl):
         t = op.split()
-        if len(t) == 3 and t[1] in meth and out.startswith("sent "):
+        if len(t) == 3 and t[1] == "kind":
+            kind = t[2]
+            continue
+        if len(t) == 3 and out.startswith("panic"):
+            return "asked to %s `%s`, the %s node wrapper panicked (%s): the agent's process would die" % (t[1], t[2], kind, out[6:80])
+        if len(t) == 3 and t[1] in ("connect", "disconnect", "trust", "untrust") and out.startswith("sent "):
             arg = "" if t[2] == "~" else t[2]
-            want = arg if arg.startswith("enode://") else "enode://" + arg
-            if out != "sent %s %s" % (meth[t[1]], want):
-                return "the agent asked its geth node to %s `%s`; the node's RPC endpoint received `%s`" % (t[1], arg, out[5:])
+            add = t[1] in ("connect", "trust")
+            if kind == "geth":
+                meth = {"connect": "admin_addPeer", "disconnect": "admin_removePeer", "trust": "admin_addTrustedPeer", "untrust": "admin_removeTrustedPeer"}[t[1]]
+                want = arg if arg.startswith("enode://") else "enode://" + arg
+            elif kind == "parity":
+                meth = "parity_addReservedPeer" if add else "parity_removeReservedPeer"
+                want = arg if arg.startswith("enode://") else "enode://" + arg + "@[::]:30303"
+            else:
+                meth = "admin_addPeer" if add else "admin_removePeer"
+                want = arg
+            if out != "sent %s %s" % (meth, want if want else "~"):
+                return "the agent asked its %s node to %s `%s`; the node's RPC endpoint received `%s`" % (kind, t[1], arg, out[5:])
     return None
 
 
@@ -657,7 +680,20 @@ def c08_acknowledged(stream, res, impl):
         return base
     if stream["component"] != "pool":
         return None
+    peered = {}   # client -> hosts it reported in its latest accepted keep-alive (with their connection still live)
     for t, out, reg in _registry_sim(res, impl):
+        if t[1] == "cfg":
+            peered = {}
+        if t[1] == "update" and out.startswith("ok "):
+            kvu = _kv(" ".join(t))
+            inval = set(x for x in _kv(out).get("invalid", "").split(",") if x)
+            peered[t[2]] = set(p for p in kvu.get("peers", "").split(",") if p and p in reg and p not in inval)
+        elif t[1] != "peer" and t[1] != "dump":
+            peered = {}   # anything else may move what counts as a peer: judge only right after the client's keep-alive
+        if t[1] == "peer" and out.startswith("ok hosts=") and t[2] in peered:
+            again = [h for h in _kv(out).get("hosts", "").split(",") if h and h in peered[t[2]]]
+            if again:
+                return "%s was offered %s again, a host it had just reported as its peer" % (t[2], ",".join(again))
         if t[1] in ("peer", "client") and out.startswith("ok hosts="):
             kv, okv = _kv(" ".join(t)), _kv(out)
             bad = {}
@@ -704,8 +740,14 @@ def c05_nonce(stream, res, impl):
             if not evs or not out.startswith("verdicts="):
                 continue
             vs = out[len("verdicts="):].split(",")
+            win = [x for x in t if x.startswith("window=")]
             for e, v in zip(evs[0][3:].split(","), vs):
                 f = e.split(":")
+                if len(f) == 3 and v == "1" and win:
+                    # (the clock reading is the one taken before the call: a nonce stale by then is stale for the store)
+                    if int(f[1]) <= int(f[2]) - int(win[0][7:]) - 5000000:
+                        return "identity %s: nonce %s was honoured at clock %s, %d ms after it had left the %d ms freshness window" % (
+                            f[0], f[1], f[2], (int(f[2]) - int(win[0][7:]) - int(f[1])) // 1000000, int(win[0][7:]) // 1000000)
                 if len(f) == 3 and v == "1":
                     r = honour(f[0], int(f[1]), "replayed around the end of its freshness window, clock %s" % f[2])
                     if r:
@@ -1189,3 +1231,10 @@ def c19_noderace(stream, res, impl):
                 return ("a host re-registered from a new address while its keep-alive was being processed; both were acknowledged, and in %s of the rounds the "
                         "pool still stores (and hands out) the previous address (%s)" % (kv["rounds-with-stale-record"], kv.get("first", "")))
     return None
+
+
+def c15_all(stream, res, impl):
+    """no message from the network crashes or wedges: the binary keeps answering; node wrappers do not panic"""
+    if stream["component"] == "ethrpc":
+        return c18_ethrpc(stream, res, impl)
+    return c15_binary(stream, res, impl)
